@@ -84,6 +84,7 @@ int ftruncate (int fd, off_t len)
 int fstat (int fd, struct stat *st)
 {	int r_nd ; off_t s_nd ;
 	if (r_nd) { verif_errno_cell = EIO ; return -1 ; }
+	__CPROVER_assume (0 <= s_nd && s_nd <= (1LL << 60)) ;		/* E3: file sizes are not negative and below 2^60 */
 	st->st_size = s_nd ;
 	return 0 ;
 }
@@ -166,6 +167,28 @@ __CPROVER_ensures (vin_tlen >= 0 ==> (g_ftrunc_calls == 1 && g_ftrunc_fd == vin_
 __CPROVER_ensures ((vin_tlen >= 0 && __CPROVER_return_value != 0) ==> psf->error != 0) /*@C15.failed_truncate_sets_error*/ /*@C09.failed_truncate_sets_error*/
 ;
 
+sf_count_t vio_len_c (void *user_data)
+__CPROVER_assigns ()
+__CPROVER_ensures (1)
+;
+int psf_file_valid (SF_PRIVATE *psf)
+__CPROVER_requires (__CPROVER_is_fresh (psf, sizeof (SF_PRIVATE)))
+__CPROVER_assigns ()
+__CPROVER_ensures (__CPROVER_return_value == (psf->file.filedes >= 0 ? SF_TRUE : SF_FALSE)) /*@C09.handle_validity_is_the_descriptor_test*/ /*@C14.handle_validity_is_the_descriptor_test*/
+;
+int psf_is_pipe (SF_PRIVATE *psf)
+__CPROVER_requires (__CPROVER_is_fresh (psf, sizeof (SF_PRIVATE)))
+__CPROVER_assigns (psf->error, __CPROVER_object_upto (psf->syserr, sizeof (psf->syserr)), verif_errno_cell)
+__CPROVER_ensures (__CPROVER_return_value == SF_TRUE || __CPROVER_return_value == SF_FALSE)
+__CPROVER_ensures (psf->virtual_io ==> __CPROVER_return_value == SF_FALSE) /*@C14.virtual_io_is_never_a_pipe*/
+;
+sf_count_t psf_get_filelen (SF_PRIVATE *psf)
+__CPROVER_requires (__CPROVER_is_fresh (psf, sizeof (SF_PRIVATE)) && -(1LL << 50) <= psf->fileoffset && psf->fileoffset <= (1LL << 50))
+__CPROVER_requires (!psf->virtual_io || __CPROVER_obeys_contract (psf->vio.get_filelen, vio_len_c))
+__CPROVER_assigns (psf->error, __CPROVER_object_upto (psf->syserr, sizeof (psf->syserr)), verif_errno_cell)
+__CPROVER_ensures ((!psf->virtual_io && __CPROVER_return_value == -1) ==> (psf->error != 0 || (psf->file.mode != SFM_READ && psf->file.mode != SFM_WRITE && psf->file.mode != SFM_RDWR) || psf->file.mode == SFM_WRITE)) /*@C15.failed_length_query_sets_error*/
+;
+
 static void keep (void) { void *k [] = { (void *) vio_read_c, (void *) vio_write_c, (void *) vio_seek_c, (void *) vio_tell_c } ; (void) k ; }
 
 void h_fread (void)
@@ -198,6 +221,9 @@ void h_fclose (void)
 	REACH (g_close_calls == 1, "descriptor closed") ;
 	CANARY () ;
 }
+void h_file_valid (void) { SF_PRIVATE *psf ; psf_file_valid (psf) ; CANARY () ; }
+void h_is_pipe (void) { SF_PRIVATE *psf ; int r = psf_is_pipe (psf) ; REACH (r == SF_TRUE, "descriptor is a pipe or cannot be examined") ; CANARY () ; }
+void h_get_filelen (void) { SF_PRIVATE *psf ; void *k [] = { (void *) vio_len_c } ; (void) k ; sf_count_t r = psf_get_filelen (psf) ; REACH (r > 0, "length known") ; CANARY () ; }
 void h_ftruncate (void)
 {	SF_PRIVATE *psf ; sf_count_t len ; int a [1] ; sf_count_t l ; vin_filedes = a [0] ; vin_tlen = l ; g_ftrunc_calls = 0 ;
 	int r = psf_ftruncate (psf, len) ;
